@@ -128,7 +128,11 @@ def pullM (ev : Graph V → Nat → Graph V × Log) (reads : List (Option V) →
       (r2.1, r2.2.1, r.2 ++ r2.2.2)
     else pullM ev reads g ds (acc ++ [none])
 
-/-- `process()`: cache := Process(), version++, remember the dependency versions, clear the flag -/
+/-- `process()`: cache := Process(), version++, remember the dependency versions, clear the flag.
+    `Process()` may also return an error: `sn.value, sn.err = sn.Data.Process()` stores the value
+    returned NEXT to the error all the same, the version bumps, and nothing (not `State()`, not
+    `Outdated()`) looks at `sn.err` — so a failing processor is just an `fn`; the harness has
+    processors whose error depends on their input values. -/
 def SNode.executed (s : SNode V) (g1 : Graph V) (vals : List (Option V)) : SNode V :=
   { s with cache := s.fn s.scalars s.arrays vals, version := s.version + 1,
            remembered := some (s.deps.map (ver g1)), flag := false }
